@@ -6,6 +6,7 @@ package main
 import (
 	"fmt"
 	"go/ast"
+	"go/constant"
 	"go/token"
 	"go/types"
 	"sort"
@@ -985,6 +986,42 @@ func ruleLineStarts(c *Ctx) {
 		}
 	}
 	c.census("C01-LINES", "stores into the table of line starts", n, 1)
+	// ... and a line of the mapper is a line of the lexer: the lexer counts a line per '\n' and nothing else
+	// (L-NEWLINE), the syntax tree's line numbers index the mapper's lines (formatting takes the posting's line from
+	// the tree and the length of that line from the mapper), so the mapper must not break lines anywhere else - a
+	// lone '\r' treated as a line end shifts every later line.
+	for _, f := range fns {
+		for _, b := range f.Blocks {
+			for _, ins := range b.Instrs {
+				for _, op := range ins.Operands(nil) {
+					if op == nil || *op == nil {
+						continue
+					}
+					k, ok := (*op).(*ssa.Const)
+					if !ok || k.Value == nil {
+						continue
+					}
+					bad := false
+					switch k.Value.Kind() {
+					case constant.Int:
+						if v, exact := constant.Int64Val(k.Value); exact && v == 13 {
+							if bt, isB := k.Type().Underlying().(*types.Basic); isB && (bt.Kind() == types.Uint8 || bt.Kind() == types.Int32 || bt.Kind() == types.UntypedRune) {
+								bad = true
+							}
+						}
+					case constant.String:
+						if strings.Contains(constant.StringVal(k.Value), "\r") {
+							bad = true
+						}
+					}
+					if bad {
+						c.finding("C01-LINES", funcName(f), "the mapper breaks lines at line feeds only", ins.Pos(),
+							"the position mapper looks at carriage returns while it builds its lines: the lexer counts a line per line feed only, so after a lone '\\r' the mapper's line numbers run ahead of the syntax tree's - edits that take a line number from the tree and a line length from the mapper (formatting) end at the length of a different line")
+					}
+				}
+			}
+		}
+	}
 }
 
 // ruleParserState (P-STATE): what the parser records for an entry is taken from that entry's own tokens.  The
